@@ -172,11 +172,29 @@ impl ObjectReceiver {
     fn push_to_block(&mut self, pkt: &alc::AlcPkt, now: std::time::SystemTime) -> Result<()> {
         self.push_to_block2(pkt, now)?;
         if pkt.lct.close_object {
-            if self.state == State::Receiving {
+            if self.state == State::Receiving && !self.is_only_waiting_for_fdt() {
                 self.error("No more packet for this object", now, true);
             }
         }
         Ok(())
+    }
+
+    /// Every block has been decoded, the object only waits for an FDT describing it
+    fn is_only_waiting_for_fdt(&self) -> bool {
+        if self.fdt_instance_id.is_some() || self.oti.is_none() || self.transfer_length.is_none() {
+            return false;
+        }
+
+        let oti = self.oti.as_ref().unwrap();
+        let (_, _, _, nb_blocks) = partition::block_partitioning(
+            oti.maximum_source_block_length as u64,
+            self.transfer_length.unwrap_or_default(),
+            oti.encoding_symbol_length as u64,
+        );
+
+        nb_blocks > 0
+            && self.nb_block() as u64 == nb_blocks
+            && self.nb_block_completed() as u64 == nb_blocks
     }
 
     fn push_to_block2(&mut self, pkt: &alc::AlcPkt, now: std::time::SystemTime) -> Result<()> {
